@@ -51,6 +51,7 @@ type c03Outcome struct {
 	slow     bool   // neither: a harness-side timeout (inconclusive, never a verdict)
 	detail   string // status code / error text
 	sessID   string // session id reported by the server, when the protocol exposes one (WHIP/WHEP `ID` header)
+	body     string // HLS: the multivariant playlist that was served
 	closer   func() // releases the client (nil if nothing is held)
 }
 
@@ -394,7 +395,12 @@ func c03HTTPClient() (*http.Client, func()) {
 }
 
 // c03SetHTTPCreds: place "basic" = Authorization: Basic, "bearer" = Authorization: Bearer user:pass (both documented)
-func c03SetHTTPCreds(req *http.Request, place string, cr c03Creds) {
+func c03SetHTTPCreds(req *http.Request, place string, cr c03Creds, spoof string) {
+	if spoof != "" {
+		// what a reverse proxy would add; the listeners have no trusted proxy configured, so it must be ignored
+		req.Header.Set("X-Forwarded-For", spoof)
+		req.Header.Set("X-Real-IP", spoof)
+	}
 	if !cr.present {
 		return
 	}
@@ -450,7 +456,7 @@ func c03Offer(publish bool) (string, error) {
 
 // c03WHIP posts an offer to /<path>/whip or /<path>/whep. The server decides access during this exchange
 // (201 Created with an answer, or 401). ICE is never completed; the session is deleted by the closer.
-func c03WHIP(hostport, path string, publish bool, place string, cr c03Creds) c03Outcome {
+func c03WHIP(hostport, path string, publish bool, place string, cr c03Creds, spoof string) c03Outcome {
 	offer, err := c03Offer(publish)
 	if err != nil {
 		return c03Outcome{slow: true, detail: "harness: cannot build SDP offer: " + err.Error()}
@@ -463,7 +469,7 @@ func c03WHIP(hostport, path string, publish bool, place string, cr c03Creds) c03
 	ur := "http://" + hostport + "/" + path + "/" + ep
 	req, _ := http.NewRequest(http.MethodPost, ur, strings.NewReader(offer))
 	req.Header.Set("Content-Type", "application/sdp")
-	c03SetHTTPCreds(req, place, cr)
+	c03SetHTTPCreds(req, place, cr, spoof)
 	res, err := hc.Do(req)
 	if err != nil {
 		closeIdle()
@@ -500,11 +506,11 @@ func c03WHIP(hostport, path string, publish bool, place string, cr c03Creds) c03
 
 // c03HLS requests the multivariant playlist (following the cookieCheck redirect, credentials are re-sent on the
 // same host). 200 with a playlist = a session was created; 401 = refused.
-func c03HLS(hostport, path string, place string, cr c03Creds) c03Outcome {
+func c03HLS(hostport, path string, place string, cr c03Creds, spoof string) c03Outcome {
 	hc, closeIdle := c03HTTPClient()
 	defer closeIdle()
 	req, _ := http.NewRequest(http.MethodGet, "http://"+hostport+"/"+path+"/index.m3u8", nil)
-	c03SetHTTPCreds(req, place, cr)
+	c03SetHTTPCreds(req, place, cr, spoof)
 	res, err := hc.Do(req)
 	if err != nil {
 		return c03Outcome{slow: true, detail: "http: " + err.Error()}
@@ -513,10 +519,34 @@ func c03HLS(hostport, path string, place string, cr c03Creds) c03Outcome {
 	res.Body.Close()
 	switch {
 	case res.StatusCode == http.StatusOK && strings.HasPrefix(string(body), "#EXTM3U"):
-		return c03Outcome{accepted: true, detail: "200 playlist"}
+		return c03Outcome{accepted: true, detail: "200 playlist", body: string(body)}
 	case res.StatusCode == http.StatusUnauthorized || res.StatusCode == http.StatusForbidden:
 		return c03Outcome{refused: true, detail: strconv.Itoa(res.StatusCode)}
 	default:
 		return c03Outcome{refused: true, detail: fmt.Sprintf("unexpected status %d: %.120s", res.StatusCode, strings.TrimSpace(string(body)))}
 	}
+}
+
+// c03HLSMediaURI returns the first URI of a multivariant playlist (a media playlist, carrying the session parameter).
+func c03HLSMediaURI(playlist string) string {
+	for _, ln := range strings.Split(playlist, "\n") {
+		ln = strings.TrimSpace(ln)
+		if ln != "" && !strings.HasPrefix(ln, "#") {
+			return ln
+		}
+	}
+	return ""
+}
+
+// c03HTTPGetStatus performs one GET (no credentials) and returns the status code (0 on transport error).
+func c03HTTPGetStatus(ur string) (int, string) {
+	hc, closeIdle := c03HTTPClient()
+	defer closeIdle()
+	res, err := hc.Get(ur)
+	if err != nil {
+		return 0, err.Error()
+	}
+	body, _ := io.ReadAll(io.LimitReader(res.Body, 1<<12))
+	res.Body.Close()
+	return res.StatusCode, string(body)
 }
